@@ -91,11 +91,12 @@ PYOP = dict(add=operator.add, sub=operator.sub, mul=operator.mul, div=operator.t
 
 def run_impl(case):
     uni = case["uni"]
-    x = build_array(uni, case["x"])
+    from props.c07 import _build        # FlodymArray or one of its subclasses (Parameter / StockArray / Flow), chosen from the case
+    x = _build(uni, case["x"], case)
     op = case["op"]
     k = op["kind"]
     if k == "bin":
-        y = build_array(uni, op["y"])
+        y = _build(uni, op["y"], case)
     elif k in ("num", "refl"):
         y = op["c"]
     if k in ("bin", "num"):
